@@ -405,4 +405,21 @@ theorem c11_emitted_cuwp_slots_distinct {cfg : RichCfg} {secs : List RSection} {
   · simp only [h1] at h
     exact main table hnd h
 
+/-- **no dangling switch number**: with the lookup the switch rebuild produced, the number written for a switch
+argument is a position of the emitted 256-entry switch table -/
+theorem c11_written_switch_number_in_table {cfg : RichCfg} {secs : List RSection} {order : Option (List Nat)}
+    {tbl : List RSwitch} {ids : List (RSwitch × Nat)} (h : rebuildSwnm cfg secs order = .ok (tbl, ids))
+    (ctx : EncCtx) (hctx : ctx.switchIds = ids) (s : RSwitch) (i : Nat) (hs : switchId ctx s = some i) :
+    i < tbl.length := by
+  obtain ⟨hl, hb⟩ := c11_swnm_shape_and_ids h
+  unfold switchId at hs
+  rw [hctx] at hs
+  cases hf : ids.find? (fun p => RSwitch.same p.1 s) with
+  | none => rw [hf] at hs; simp at hs
+  | some p =>
+    rw [hf] at hs
+    simp only [Option.map_some, Option.some.injEq] at hs
+    rw [← hs, hl]
+    exact hb p (List.mem_of_find?_eq_some hf)
+
 end Richchk.Props.C11
